@@ -10,6 +10,8 @@ ROOT = os.path.normpath(os.path.join(os.path.dirname(os.path.abspath(__file__)),
 sys.path.insert(0, ROOT)
 
 ALL = ['C%02d' % i for i in range(1, 21)]
+# properties whose check is finished and verified by the orchestrator (others stay pending)
+READY = ['C06', 'C08', 'C09', 'C15', 'C19', 'C20']
 PENDING_REASON = 'check not built yet in this round (model/theorems/correspondence in progress); not claimed'
 
 
@@ -18,7 +20,7 @@ def main():
     na = []
     for pid in ALL:
         path = os.path.join(ROOT, 'harness', 'props', pid.lower() + '.py')
-        if not os.path.exists(path):
+        if pid not in READY or not os.path.exists(path):
             na.append({'property_id': pid, 'reason': PENDING_REASON})
             continue
         mod = importlib.import_module('harness.props.' + pid.lower())
